@@ -1,1 +1,2 @@
 import LinfaSpec.Props.C01
+import LinfaSpec.Props.C04
